@@ -171,11 +171,12 @@ void ProcessGroup::signalAll(int signal) {
       continue;
 
     // We are killing the whole process group here, this depends on us
-    // spawning each process in its own group earlier.
+    // spawning each process in its own group earlier. A process connected to
+    // the console was not given a group: signal just the process.
 #if defined(_WIN32)
     TerminateProcess(it.first, signal);
 #else
-    ::kill(-it.first, signal);
+    ::kill(it.second.hasOwnProcessGroup ? -it.first : it.first, signal);
 #endif
   }
 }
@@ -936,7 +937,7 @@ void llbuild::basic::spawnProcess(
 #if defined(_WIN32)
         pid = processInfo.hProcess;
 #endif
-        ProcessInfo info{ attr.canSafelyInterrupt };
+        ProcessInfo info{ attr.canSafelyInterrupt, !attr.connectToConsole };
         pgrp.add(std::move(guard), pid, info);
       }
 
